@@ -322,7 +322,7 @@ func (st *Std) assign(s S, lhs ast.Expr, rhs ast.Expr, fromCall *ast.CallExpr, i
 		return s
 	}
 	id := VarID(o)
-	s = s.Del("v:" + id).Del("nn:" + id).Del("ev:" + id).Del("bv:" + id)
+	s = s.Del("v:" + id).Del("nn:" + id).Del("ev:" + id).Del("bv:" + id).Del("q:" + id)
 	if !st.trackable(o) {
 		return s
 	}
@@ -510,6 +510,59 @@ func (st *Std) Client() Client {
 			return mk(true), mk(false), true
 		}
 		return mk(false), mk(true), true
+	}
+	// `x == const` / `x != const` on a local variable whose value is not known:
+	// the equal edge learns the value (constant tracking takes over), the other
+	// edge remembers the excluded constant, so correlated tests of one variable
+	// (`if p == "" || p == "root"` … `if p == "root"`) do not produce infeasible paths.
+	st.Eval.LeafLate = func(c ast.Expr, s S) (t, f []S, handled bool) {
+		a, b, op, ok := CmpAtom(c)
+		if !ok || (op != token.EQL && op != token.NEQ) {
+			return nil, nil, false
+		}
+		if _, isConst := st.FoldExpr(a, s); isConst {
+			a, b = b, a
+		}
+		cv, isConst := st.FoldExpr(b, s)
+		if !isConst || !(cv.Kind() == constant.String || cv.Kind() == constant.Int || cv.Kind() == constant.Bool) {
+			return nil, nil, false
+		}
+		id, isID := ast.Unparen(a).(*ast.Ident)
+		if !isID {
+			return nil, nil, false
+		}
+		o := ObjOf(info, id)
+		if o == nil || !st.trackable(o) || s.Has("v:"+VarID(o)) {
+			return nil, nil, false
+		}
+		if bt, ok := o.Type().Underlying().(*types.Basic); !ok || bt.Info()&(types.IsString|types.IsInteger|types.IsBoolean) == 0 {
+			return nil, nil, false
+		}
+		vid := VarID(o)
+		repr := constRepr(cv)
+		excl := []string{}
+		if q := s.Get("q:" + vid); q != "" {
+			excl = strings.Split(q, "\x00")
+		}
+		known := false
+		for _, x := range excl {
+			if x == repr {
+				known = true
+			}
+		}
+		var eq, ne []S
+		if !known {
+			eq = []S{s.Del("q:"+vid).Set("v:"+vid, repr)}
+		}
+		if known || len(excl) >= 6 {
+			ne = []S{s}
+		} else {
+			ne = []S{s.Set("q:"+vid, strings.Join(append(excl, repr), "\x00"))}
+		}
+		if op == token.EQL {
+			return eq, ne, true
+		}
+		return ne, eq, true
 	}
 	cond0 = func(c ast.Expr, s S) (t, f []S) {
 		return st.Eval.Eval(c, s)
